@@ -152,9 +152,7 @@ class PipeProp:
             out.traces += sum(1 for m in info["instances"])
 
     def instance_of(self, info, name):
-        if "adhoc" in info:
-            return info["adhoc"][name]
-        return gen.gen_instance(info["seed"], info["index"][name])
+        return pipeline.instance_of(info, name)
 
     def run(self, prop, tier, seed):
         out = Outcome()
@@ -395,7 +393,7 @@ class WalkProp:
                 by_chunk.setdefault(m["chunk"], []).append(m)
             for ci, v in pv:
                 m = [x for x in by_chunk[ci] if x["first"] <= v["l"] <= x["last"]][0]
-                inst = gen.gen_instance(pinfo["seed"], pinfo["index"][m["name"]])
+                inst = pipeline.instance_of(pinfo, m["name"])
                 payload = {"property": prop, "kind": "pipe", "formula": v["name"], "profile": "release",
                            "signature": v["name"], "instance": inst, "input": gen.render(inst)}
                 out.findings.append(Finding(prop, v["name"], m["name"] + "/pipeline", v["name"], "stage snapshot", payload))
@@ -591,7 +589,7 @@ class TransProp:
             by_chunk.setdefault(m["chunk"], []).append(m)
         for ci, v in pv:
             m = [x for x in by_chunk[ci] if x["first"] <= v["l"] <= x["last"]][0]
-            inst = gen.gen_instance(pinfo["seed"], pinfo["index"][m["name"]])
+            inst = pipeline.instance_of(pinfo, m["name"])
             payload = {"property": prop, "kind": "pipe", "formula": v["name"], "profile": "release",
                        "signature": v["name"], "instance": inst, "input": gen.render(inst)}
             out.findings.append(Finding(prop, v["name"], m["name"] + "/pipeline", v["name"], "pipeline", payload))
@@ -683,7 +681,7 @@ class LsFixProp(PipeProp):
             by_chunk.setdefault(m["chunk"], []).append(m)
         for ci, v in pv:
             m = [x for x in by_chunk[ci] if x["first"] <= v["l"] <= x["last"]][0]
-            inst = gen.gen_instance(pinfo["seed"], pinfo["index"][m["name"]])
+            inst = pipeline.instance_of(pinfo, m["name"])
             payload = {"property": prop, "kind": "pipe", "formula": v["name"], "profile": "release",
                        "signature": v["name"], "instance": inst, "input": gen.render(inst)}
             out.findings.append(Finding(prop, v["name"], m["name"] + "/pipeline", v["name"], "pipeline", payload))
@@ -874,8 +872,12 @@ class ServerProp:
         pool = [gen.gen_instance(seed + 900 + i, i, max_trips=8) for i in range(24)]
 
         def inst_of(k, r):
+            if r == "v2":
+                # sibling of v1: same ids / times / locations, different numbers only (a response cache or
+                # any state keyed by the shape of the request would hand out the other one's solution)
+                return httpdrive.numeric_sibling(inst_of(k, "v1"), k)
             base = pool[(k * 7 + sum(ord(ch) for ch in r)) % len(pool)]
-            return httpdrive.rename_ids(base, "%s%d" % (r, k))
+            return httpdrive.rename_ids(base, "%s%d" % (("v1" if r == "v1" else r), k))
 
         results = []
         server = httpdrive.Server(exe)
